@@ -117,7 +117,28 @@ function obs() {
   if (errs.length) return {err: errs[0], n: errs.length};
   return {a: tk};
 }
-function reset() { A = ""; return obs(); }
+// Go strings that are not valid UTF-8: every invalid sequence is imported as U+FFFD, so strings of different bytes can be the same
+// sequence of code units; each comparison is made on FRESH imports (the first use decides whether the string has been scanned)
+function invalidImports() {
+  var fams = [[[0xff], [0xfe], "\ufffd"], [[0xc3], [0x80], "\ufffd"], [[0x61, 0xed, 0xa0, 0x80], [0x61, 0xff, 0xfe, 0xfd], "a\ufffd\ufffd\ufffd"], [[0xf0, 0x9f, 0x98], [0xf8, 0x88, 0x80], null]];
+  var pads = ["", PADA, PADU];
+  for (var f = 0; f < fams.length; f++) for (var p = 0; p < pads.length; p++) {
+    var pad = pads[p], ba = fams[f][0], bb = fams[f][1];
+    var a = function () { return __goRaw(pad, ba); }, b = function () { return __goRaw(pad, bb); };
+    var lit = fams[f][2] === null ? null : pad + fams[f][2];
+    var x = a(), y = b();
+    if (x.length !== y.length) continue; // (not the same code units: nothing to compare)
+    var same = true; for (var i = 0; i < x.length; i++) if (x.charCodeAt(i) !== y.charCodeAt(i)) same = false;
+    if (!same) continue;
+    var o = {}; o[a()] = 1;
+    var r = [a() === b(), a() == b(), Object.is(a(), b()), new Set([a()]).has(b()), new Map([[a(), 1]]).get(b()) === 1, [a()].includes(b()), [a()].indexOf(b()) === 0,
+             o[b()] === 1, !(a() < b()) && !(a() > b()), a() <= b() && a() >= b(), (function (v) { switch (v) { case b(): return true } return false })(a()),
+             lit === null || (a() === lit && lit === b() && new Set([lit]).has(a())), a() + "!" === b() + "!", JSON.stringify(a()) === JSON.stringify(b())];
+    if (r.indexOf(false) >= 0) return "Go strings with different invalid UTF-8 bytes but identical code units are told apart (pad " + pad.length + ", bytes " + ba + " / " + bb + "): " + r.join();
+  }
+  return null;
+}
+function reset() { A = ""; var e = invalidImports(); if (e) return {err: e, n: 1}; return obs(); }
 
 function step(l) {
   var a = A, m = l.m === undefined ? undefined : mk(l.m, "fcc"), r = l.r === undefined ? undefined : mk(l.r, "fcc"), v, q;
